@@ -46,6 +46,7 @@ PROPS['C06']={
    {'name':'expiry_top','module':'harness.C06','cls':'Expiry','quick':{},'thorough':{},'validate':{'quick':2,'thorough':2}},
    {'name':'expiry_sub','module':'harness.C06','cls':'Expiry','quick':{'sub':True},'thorough':{'sub':True},'validate':{'quick':3,'thorough':3}},
    {'name':'expiry_second_call','module':'harness.C06','cls':'ExpirySecondCall','quick':{},'thorough':{},'validate':{'quick':2,'thorough':2}},
+   {'name':'expiry_through_constructors','module':'harness.C06','cls':'ExpiryThroughConstructors','quick':{},'thorough':{},'validate':{'quick':6,'thorough':6}},
    {'name':'parse_datetime','module':'harness.C06','cls':'ParseInstant','quick':{},'thorough':{},'validate':{'quick':2,'thorough':2}},
  ]}
 
